@@ -271,6 +271,18 @@ func NewKernel(ctx context.Context, log *slog.Logger, cfg KernelConfig) (*Kernel
 		initState.NextRound.Height, initState.NextRound.Round,
 	)
 
+	// The process may have stopped after a precommit majority for the voting round was persisted
+	// but before the resulting commit or round advance was applied.
+	// Peers resending those votes would only be told there are no new signatures,
+	// so evaluate the loaded voting view now.
+	if len(initState.Voting.PrecommitProofs) > 0 {
+		if err := k.checkVotingPrecommitViewShift(ctx, &initState); err != nil {
+			return nil, fmt.Errorf(
+				"cannot initialize mirror kernel: failed to apply stored precommits: %w", err,
+			)
+		}
+	}
+
 	if err := k.updateObservers(ctx, &initState); err != nil {
 		return nil, err
 	}
